@@ -170,6 +170,7 @@ func runGenCheck(o checkOpts, level string, quick, thorough genBudget, rule stri
 				os.RemoveAll(dir)
 				os.MkdirAll(dir, 0o755)
 				ts := tape.NewSet(tape.Mix(uint64(o.seed), tape.MixS(o.id), uint64(i)))
+				ts.Index = i
 				r := fn(ctx, ts, dir)
 				r.Idx = i
 				if r.V != nil {
